@@ -1005,6 +1005,9 @@ M('C12','randommap-get-nolock','ds/randommap/random_map.go','''func (r *RandomMa
 ''','lock/guarded-by RandomMap.rawMap in ds/randommap.RandomMap.Has')
 M('C12','bytesfilter-no-evict','ds/bytesfilter/bytesfilter.go','''		b.knownIdentifiers.Delete(b.identifiers[0])
 ''','','pair/bytesfilter')
+M('C12','timeheap-less-flipped','ds/timeheap/timeheap.go','return h[i].timestamp.Before(h[j].timestamp)','return h[i].timestamp.After(h[j].timestamp)','cmp/direction ds/timeheap.timeHeap.Less')
+M('C12','timeheap-less-respelled','ds/timeheap/timeheap.go','return h[i].timestamp.Before(h[j].timestamp)','first, second := h[i], h[j]\n\n\treturn second.timestamp.After(first.timestamp)','',silent=True)
+M('C12','queue-receiver-renamed','ds/queue/queue.go','func (queue *Queue[T]) Poll() (element T, success bool) {','func (q *Queue[T]) Poll() (element T, success bool) {\n\tqueue := q','',silent=True)
 M('C12','pq-popuntil-exclusive','ds/priorityqueue/priorityqueue.go','p.heap[0].Key.CompareTo(priority) <= 0','p.heap[0].Key.CompareTo(priority) < 0','cmp/direction ds/priorityqueue.PriorityQueue.PopUntil')
 M('C12','pq-remove-unguarded','ds/priorityqueue/priorityqueue.go','''		if heapElement.Index() != -1 {
 			heap.Remove(&p.heap, heapElement.Index())
